@@ -40,6 +40,7 @@ def check(ck):
         c06._scoped_context(ck, repo, w)
         # the document-level collectors (variables / fragments used through nested spreads) must lose nothing
         c06._document_level(ck, repo, w)
+        c06.usage_walk_terms(ck, repo)
     with ck.rule("R8"):
         c06.rule_tables(ck, repo, w)
         c06.values_of_correct_type_table(ck, repo)
